@@ -6,7 +6,7 @@ LEVEL_TEXT = ('bounded symbolic verification of the trust points of the real raw
               'error propagation of reader entry points at the jls_core_rd_chunk seam; detection strength of the real CRC for <=3 flipped bits and bursts <=32')
 TRUSTED = ['cbmc 6.11', 'membk.c (in-memory POSIX file model)', 'crcfun.c (content-dependent checksum standing in for CRC-32C where CRC arithmetic is not the subject; C18 decides CRC correctness)',
            'format.h extents re-stated in the harness']
-OUTSIDE = ['whole-file statement "or a correct prefix after repair" (inherits the limits of C03)', 'payloads longer than the stated bound',
+OUTSIDE = ['error propagation only for the 8 listed reader functions and one failing read per call', 'whole-file statement "or a correct prefix after repair" (inherits the limits of C03)', 'payloads longer than the stated bound',
            'detection strength for codewords longer than 64 bytes rests on the published HD tables for 0x1EDC6F41']
 EXPLANATION = ('O1: a fully symbolic chunk image (header, payload, padding, footer, symbolic file length and symbolic caller buffer size) is read through the real '
                'jls_raw_open/jls_raw_rd; success implies checksum equality over the format.h extents and byte-identical output; failures leave the caller header INVALID; '
@@ -24,6 +24,20 @@ def obligations(tier):
                  unwind=40, timeout=600, backend=PORTFOLIO,
                  desc='jls_raw_open("r") on a symbolic 32-byte file header: accepted => identification, checksum over bytes 0..27, major version',
                  bound='all 2^256 file headers, file length 0..40'))
+    names = {1: 'jls_core_rd_fsr_level1', 2: 'jls_core_scan_fsr_sample_id', 3: 'jls_core_rd_fsr_data0', 4: 'jls_core_fsr_length', 5: 'jls_core_annotations',
+             6: 'jls_core_utc', 7: 'jls_core_user_data', 8: 'jls_core_scan_sources'}
+    for e, fn in names.items():
+        if e in (3, 5, 6, 7, 8):
+            continue      # data0, the annotation/UTC/user-data iterators and scan_sources: no verdict (11-12 GB or symex > 300 s); not claimed
+        o.append(Obl('O2_errprop_%s' % fn, 'c04_errprop.c', units=['core.c', 'reader.c', 'buffer.c'],
+                     defines=['JLS_VERIF_SIGNAL_COUNT=2', 'JLS_VERIF_SOURCE_COUNT=2', 'JLS_VERIF_FSR_BUFFER_U64=2', 'JLS_VERIF_BUF_DEFAULT_SIZE=160', 'JLS_VERIF_BUF_STRING_SIZE=32',
+                              'JLS_VERIF_F64_BUF_LENGTH_MIN=16', 'ENTRY=%d' % e],
+                     unwind=18, unwind_text=[('feed', r'SYM_BYTES', 66), ('jls_core_rd_chunk', r'while \(1\)', 3), ('jls_core_annotations', r'while \(pos\)', 5),
+                                             ('jls_core_utc', r'while \(hdr.item_next\)', 5), ('jls_core_user_data', r'while \(pos\)', 5), ('jls_core_scan_sources', r'while \(1\)', 4),
+                                             ('jls_buf_rd_str', r'while \(self->cur != self->end\)', 50), ('jls_core_utc', r'for \(', 4)], typed_calloc=True, timeout=600, backend=PORTFOLIO, objbits=10,
+                     desc='%s over a chunk feeder: the read with a symbolic ordinal fails with MESSAGE_INTEGRITY => the call fails and no callback follows; without a fault the call succeeds' % fn,
+                     bound='fault ordinal 0..5 (more reads than the call makes), payload bytes symbolic, structure of the fed chunks fixed',
+                     assumes=['jls_raw_rd/jls_raw_rd_header replaced by a feeder; MESSAGE_INTEGRITY is what raw.c returns on a checksum mismatch (C04-O1)']))
     npay = 16 if tier == 'quick' else 64
     wmax = 2 if tier == 'quick' else 3
     for mode, extra, nm in (('HDR', ['WMAX=%d' % wmax], 'hdr_weight%d' % wmax), ('HDR', ['BURST=1'], 'hdr_burst32'), ('PAY', ['WMAX=%d' % wmax], 'payload_weight%d' % wmax), ('PAY', ['BURST=1'], 'payload_burst32')):
